@@ -13,6 +13,7 @@
 pub mod exec;
 pub mod node;
 pub mod proxy;
+pub mod tracelog;
 
 use serde_json::{json, Value};
 use std::{
